@@ -52,3 +52,17 @@ pub fn xxhash64_u64(input: u64, seed: u64) -> u64 {
 pub fn compute_seed_hash(seed: u64) -> u16 {
     crate::hash::compute_seed_hash(seed)
 }
+
+/// `common::binomial_bounds::{lower_bound, upper_bound}` for the three confidence levels:
+/// `[lb1, lb2, lb3, ub1, ub2, ub3]`, or `None` when the crate rejects the arguments.
+pub fn theta_binomial_bounds(num_samples: u64, theta: f64, no_data_seen: bool) -> Option<[f64; 6]> {
+    use crate::common::NumStdDev;
+    use crate::common::binomial_bounds;
+    let sd = [NumStdDev::One, NumStdDev::Two, NumStdDev::Three];
+    let mut out = [0.0; 6];
+    for (i, s) in sd.iter().enumerate() {
+        out[i] = binomial_bounds::lower_bound(num_samples, theta, *s).ok()?;
+        out[3 + i] = binomial_bounds::upper_bound(num_samples, theta, *s, no_data_seen).ok()?;
+    }
+    Some(out)
+}
